@@ -716,9 +716,19 @@ func c14Mux(c *core.Ctx, oversize bool) {
 	}
 	c.Defer(func() { _ = pc.Close() })
 
+	// a second connection for the same ufrag whose first frame arrives while the first connection's first
+	// packet has not been read yet (the reader starts late)
+	second := rsize >= 100 && t.Bias(1, 4, "second-client")
+	startRead := make(chan struct{})
+	if !second {
+		close(startRead)
+	}
+	cli2Addr := &net.TCPAddr{IP: net.IPv4(10, 0, 1, 2), Port: 5002}
+	var first2 []byte
 	var mu sync.Mutex
 	var evs []c14Ev
 	go func() {
+		<-startRead
 		for i := 0; i < 100000; i++ {
 			buf := make([]byte, rsize)
 			n, addr, err := pc.ReadFrom(buf)
@@ -790,12 +800,45 @@ func c14Mux(c *core.Ctx, oversize bool) {
 	}
 	_, _ = cli.Write(firstWire)
 	synctest.Wait()
+	if second {
+		cli2, err := l.Dial(cli2Addr, simstream.DialOpts{})
+		if err != nil {
+			c.Failf("harness/dial", "%v", err)
+			return
+		}
+		c.Defer(func() { _ = cli2.Close() })
+		uname2 := "ufA:peer2"
+		first2 = tsBinding(stun.MethodBinding, stun.ClassRequest, 2, &uname2, 8)
+		_, _ = cli2.Write(tsEnc(first2))
+		synctest.Wait()
+		c.Fault("second-connection-before-first-packet-is-read")
+		close(startRead)
+		synctest.Wait()
+	}
 
 	evaluate := func(final bool) {
 		mu.Lock()
-		got := append([]c14Ev(nil), evs...)
+		all := append([]c14Ev(nil), evs...)
 		wire := append([]byte(nil), cliBytes...)
 		mu.Unlock()
+		var got, got2 []c14Ev
+		for _, e := range all {
+			if second && e.addr == cli2Addr.String() {
+				got2 = append(got2, e)
+			} else {
+				got = append(got, e)
+			}
+		}
+		if second && !muxClosed {
+			if len(got2) != 1 || got2[0].err != nil || !bytes.Equal(got2[0].data, first2) {
+				n, d := -1, -1
+				if len(got2) > 0 {
+					n, d = got2[0].n, c14FirstDiff(got2[0].data, first2)
+				}
+				c.Failf("C14/mux-packet-corrupted", "the second connection sent one packet of %d bytes; ReadFrom delivered %d packet(s) from its address, the first with %d bytes, first difference at byte %d", len(first2), len(got2), n, d)
+				return
+			}
+		}
 		var wantOK [][]byte
 		tooBig := 0
 		for _, p := range sent {
